@@ -92,3 +92,29 @@ def encodeMergedCells (ds : List Rect) : Bytes := u16le ds.length ++ ds.flatMap 
 def Rect.Fits16 (d : Rect) : Prop := d.sr < 65536 ∧ d.sc < 65536 ∧ d.er < 65536 ∧ d.ec < 65536
 
 end Geometry
+
+namespace Geometry
+
+/-- a worksheet as a file declares it: sheet name, part path, namespace prefix, and the merged regions in
+    document order between inert events; `mc = false`: no `<mergeCells>` element at all (then `merges = []`) -/
+structure SheetDecl where
+  name : Bytes
+  path : Bytes
+  pre : List Char := []
+  before : List Ev := []
+  mc : Bool := true
+  merges : List MergeDecl := []
+  after : List Ev := []
+
+def SheetDecl.events (s : SheetDecl) : List Ev :=
+  if s.mc then renderSheet s.pre s.before s.merges s.after else s.before ++ s.after
+
+def SheetDecl.regions (s : SheetDecl) : List Rect := s.merges.map (·.rect)
+
+def SheetDecl.Ok (s : SheetDecl) : Prop :=
+  (∀ c ∈ s.pre, c ≠ ':') ∧ (∀ e ∈ s.before, e.Inert) ∧ (∀ e ∈ s.after, e.Inert) ∧
+  (∀ d ∈ s.merges, d.Ok) ∧ (s.mc = false → s.merges = [])
+
+def SheetDecl.part (s : SheetDecl) : SheetPart := ⟨s.name, s.path, some s.events⟩
+
+end Geometry
